@@ -368,7 +368,18 @@ def run(chk):
     cpred = method(chk, cw, "predict")
     compares_int = "df_res.index.month == month_n" in unparse(cpred.node)
     st = [s for s in walk_no_nested(cfd.node) if isinstance(s, ast.Assign) and unparse(s.targets[0]).endswith("._autocorr_unc_vars")]
-    restored = bool(st) and "int(k)" in unparse(st[0].value)
+    restored = False
+    if st:
+        rd8 = ReachingDefs(cfd.node)
+        sl = backward_slice_exprs(rd8, st[0], st[0].value, 6)
+        names = {n.id for e in sl for n in ast.walk(e) if isinstance(n, ast.Name)}
+
+        def _int_of_key(e):
+            return any(isinstance(c, ast.Call) and unparse(c.func) == "int" and len(c.args) == 1 for c in ast.walk(e))
+        # a dict comprehension whose key goes through int(...), or a loop filling a dict of the slice through `d[int(key)] = value`
+        restored = any(isinstance(n, ast.DictComp) and _int_of_key(n.key) for e in sl for n in ast.walk(e)) or \
+            any(isinstance(x, ast.Assign) and isinstance(x.targets[0], ast.Subscript) and isinstance(x.targets[0].value, ast.Name) and x.targets[0].value.id in names and _int_of_key(x.targets[0].slice)
+                for x in ast.walk(cfd.node))
     r8.require(not compares_int or restored, f"{cfd.key}|unc_vars-int-keys", cfd.where(),
                "predict() compares the keys of _autocorr_unc_vars with index.month (int); JSON turns them into strings, so from_dict must restore int keys — otherwise the reloaded model returns NaN predicted_uncertainty")
     ctd = method(chk, cw, "to_dict")
